@@ -177,6 +177,9 @@ class Fn:
     def reachable(self, starts, removed_blocks=(), removed_edges=()):
         """blocks reachable from `starts` (inclusive) along normal edges, never entering a
         removed block and never following a removed edge"""
+        if self.j.get('inlined'):
+            # spliced helpers hand their bool results back through a local assigned constants: follow only feasible edges
+            return self.reachable_ps(starts, removed_blocks, removed_edges)
         removed_blocks = set(removed_blocks)
         removed_edges = set(removed_edges)
         seen = set()
@@ -545,6 +548,16 @@ def origins(fn, operand, extra_identity=(), through_clone=False, through_casts=F
                 out += origins(fn, t['args'][0], extra_identity, through_clone, through_casts, _seen,
                                ['as Ok', '.0'] + suffix[2:], _steps + [('try', bb)])
                 continue
+            # ... and the Break payload is its residual: for a Result, Break(Err(e)) where e is the operand's Err payload
+            if suffix[:4] == ['as Break', '.0', 'as Err', '.0'] and call_matches(t, ['core::ops::try_trait::Try::branch']):
+                out += origins(fn, t['args'][0], extra_identity, through_clone, through_casts, _seen,
+                               ['as Err', '.0'] + suffix[4:], _steps + [('try-residual', bb)])
+                continue
+            # the early return of `?` on a Result whose error type is the function's own: Err(e) with e the residual's payload
+            if suffix[:2] == ['as Err', '.0'] and call_matches(t, ['core::ops::try_trait::FromResidual::from_residual']) and _same_error_type(t):
+                out += origins(fn, t['args'][0], extra_identity, through_clone, through_casts, _seen,
+                               ['as Err', '.0'] + suffix[2:], _steps + [('from-residual', bb)])
+                continue
             # `fut.await`: the Ready payload is the output of the awaited future
             if suffix[:2] == ['as Ready', '.0'] and call_matches(t, ['core::future::future::Future::poll']):
                 out += origins(fn, t['args'][0], extra_identity, through_clone, through_casts, _seen,
@@ -587,6 +600,11 @@ def origins(fn, operand, extra_identity=(), through_clone=False, through_casts=F
             sel = None
             r2 = list(rest)
             if r2 and r2[0].startswith('as '):
+                # a downcast to variant V can only read an aggregate built as V
+                want_v = r2[0][3:]
+                if rv.get('ak') == 'adt' and rv.get('variant') is not None:
+                    if (want_v.startswith('#') and str(rv.get('vidx')) != want_v[1:]) or (not want_v.startswith('#') and rv['variant'] != want_v):
+                        continue
                 r2 = r2[1:]
             if r2 and r2[0].startswith('.'):
                 fname = r2[0][1:].lstrip('^')
@@ -602,6 +620,27 @@ def origins(fn, operand, extra_identity=(), through_clone=False, through_casts=F
         else:
             out.append(Origin('rvalue', bb=bb, stmt=s, suffix=rest, steps=list(_steps)))
     return out
+
+
+def _same_error_type(t):
+    """from_residual::<Result<T, E>, Result<Infallible, E2>>: is E == E2 (so that From::from on the error is the identity)?"""
+    ta = t.get('targs') or []
+    if len(ta) < 2 or not ta[0].startswith('core::result::Result<') or not ta[1].startswith('core::result::Result<'):
+        return False
+
+    def last_arg(x):
+        depth = 0
+        inner = x[len('core::result::Result<'):-1]
+        for i in range(len(inner) - 1, -1, -1):
+            ch = inner[i]
+            if ch in '>)]':
+                depth += 1
+            elif ch in '<([':
+                depth -= 1
+            elif ch == ',' and depth == 0:
+                return inner[i + 1:].strip()
+        return inner.strip()
+    return last_arg(ta[0]) == last_arg(ta[1])
 
 
 def _strip_ref(suffix):
@@ -676,6 +715,12 @@ class Crate:
         self.j = j
         self.name = j['crate']
         self.config = j['config']
+        # helper functions that did not exist when the rules were confirmed are spliced into their callers (rules/inline.py)
+        if not os.environ.get('VERIF_NO_INLINE'):
+            from rules import inline
+            self.inlined_helpers = inline.apply(j)
+        else:
+            self.inlined_helpers = {}
         self.built = [Fn(self, f, 'built') for f in j['built']]
         self.elab = [Fn(self, f, 'elab') for f in j['elab']]
         # initialisers of named consts / statics (MIR bodies, not part of `built`)
@@ -719,8 +764,21 @@ class Crate:
     def closures_of(self, fn, view=None):
         """closures (and coroutine bodies) nested directly or transitively in fn"""
         view = view or fn.view
-        return [g for g in self.fns(view) if g.kind == 'Closure' and g.root == fn.root and g.path != fn.path
-                and g.path.startswith(fn.path)]
+        out = [g for g in self.fns(view) if g.kind == 'Closure' and g.root == fn.root and g.path != fn.path
+               and g.path.startswith(fn.path)]
+        # closures that live in helpers inlined into fn (or into one of its closures) belong to fn as well
+        hosts = [fn] + out
+        seen = set(g.path for g in out)
+        for _ in range(3):
+            helpers = set(p for h in hosts for p in (h.j.get('inlined') or []))
+            more = [g for g in self.fns(view) if g.kind == 'Closure' and g.path not in seen and any(g.path.startswith(p + '::') for p in helpers)]
+            if not more:
+                break
+            for g in more:
+                seen.add(g.path)
+            out += more
+            hosts = more
+        return out
 
     def by_exact(self, path, view='built'):
         for f in self.fns(view):
